@@ -480,3 +480,13 @@ def run(ctx):
     nonzero_instances(ctx, em, "R13.6", "every fee message of an Open / Close chain carries a fee that is non-zero by a path fact (a zero bank send is rejected where the cw20 transfer of zero is not)", 5,
                       lambda ckey: ckey.startswith(("OpenPosition>", "ClosePosition>")), "the native deployment refuses the trade (zero bank send) while the cw20 twin executes it",
                       select=is_fee_amount13)
+
+
+    # ---------------------------------------------------------------- R13.7
+    # the insurance top-up is sized the same way in both deployments: <payout> - (engine balance + the figure the caller
+    # hands over), with no term that only one collateral kind has (round-12 seed C13o subtracted the in-flight record's
+    # `required` - zero for cw20, the already forwarded fees for native - and over-drew the insurance fund on native only).
+    # Same rule as R07.5's second half, evaluated for the Open replies as well.
+    from .balance import sizing_instances
+    ctx.rule("R13.7", "the top-up sizing is <payout> - (balance + the figure it is handed): nothing that depends on the collateral kind or on the in-flight records", 1)
+    sizing_instances(ctx, em, "R13.7", reply_keys=())
